@@ -96,7 +96,7 @@ fn plan(prop: &str) -> Vec<(Eng, u64, u64)> {
         "C04" | "C05" | "C06" | "C09" | "C10" | "C11" | "C12" => vec![(Eng::E3, 150_000, 1_000_000)],
         "C20" => vec![(Eng::E2U, 100_000, 1_000_000), (Eng::E2J, 60_000, 400_000)],
         "C16" => vec![(Eng::E4, 60_000, 1_000_000)],
-        "C08" => vec![(Eng::E1U, 45_000, 400_000), (Eng::E1J, 35_000, 150_000)],
+        "C08" => vec![(Eng::E1U, 45_000, 400_000), (Eng::E1J, 35_000, 150_000), (Eng::E2U, 20_000, 200_000)],
         _ => vec![],
     }
 }
